@@ -72,7 +72,7 @@ def fresh_returning(g: CallGraph, classes):
 
 def run(repo, res, tier):
     res.rules = ["D1 swap-restore on all exits", "D2 who-may-write with style_temp_edit dominance", "D2b default_settings read-only",
-                 "D3 placement frame algebra"]
+                 "D3 placement frame algebra", "D5 SI prefix table", "D6 animation frame index = labelled path index", "D7 path line keeps the path order"]
     g = CallGraph(repo)
     roots = [r for r in ROOTS if r in g.nodes]
     res.require("magpylib._src.display.display:show" in g.nodes, "anchor vanished: display.show")
@@ -200,9 +200,125 @@ def run(repo, res, tier):
     import origin_rules
     origin_rules.display_mutations(repo, res, rule="D2c")
     d3(repo, res)
+    d5(repo, res)
+    d6(repo, res)
+    d7(repo, res)
     res.assumptions += [f"triaged lazy initialisation (not traversed): {k} - {v}" for k, v in LAZY_INIT.items()]
     res.assumptions += [f"triaged cache {c}.{p}*: {v}" for (c, p), v in CACHES.items()]
     return extra
+
+
+SI_PREFIX = {"y": -24, "z": -21, "a": -18, "f": -15, "p": -12, "n": -9, "µ": -6, "μ": -6, "u": -6, "m": -3, "c": -2, "d": -1, "": 0,
+             "da": 1, "h": 2, "k": 3, "M": 6, "G": 9, "T": 12, "P": 15, "E": 18, "Z": 21, "Y": 24}
+ORDER_DESTROYING = {"unique", "sort", "sorted", "argsort", "lexsort", "set", "frozenset", "flip", "flipud", "fliplr", "shuffle", "permutation", "roll", "reversed"}
+
+
+def d5(repo, res):
+    """D5 the unit announced on the axes: every (prefix symbol, power of ten) pair the package uses to scale lengths is the SI one
+    (table cross-check against the declared SI prefixes; `c`/`d` are added inline in get_unit_factor)"""
+    um = repo.mod("magpylib._src.utility")
+    n = 0
+    tab = um.assigns.get("_UNIT_PREFIX")
+    res.require(isinstance(tab, ast.Dict) and len(tab.keys) >= 10, "anchor vanished: utility._UNIT_PREFIX table")
+    pairs = [(v, k, tab) for k, v in zip(tab.keys, tab.values)]
+    fn = um.funcs.get("get_unit_factor")
+    res.require(fn is not None, "anchor vanished: utility.get_unit_factor")
+    inline = 0
+    for d in ast.walk(fn):
+        if isinstance(d, ast.Dict):
+            for k, v in zip(d.keys, d.values):
+                if isinstance(k, ast.Constant) and isinstance(k.value, str) and len(k.value) <= 2:
+                    pairs.append((k, v, d)); inline += 1
+    res.require(inline >= 2, "anchor vanished: deci/centi entries in get_unit_factor")
+    for sym, power, node in pairs:
+        try:
+            s_, p_ = ast.literal_eval(sym), ast.literal_eval(power)
+        except Exception:
+            continue
+        if not isinstance(s_, str) or not isinstance(p_, int):
+            continue
+        n += 1
+        ok = SI_PREFIX.get(s_) == p_
+        res.ob(f"D5:prefix {s_!r}", ok, {"rule": "D5", "prefix": s_, "power_of_ten": p_, "SI": SI_PREFIX.get(s_)}, nontrivial=False)
+        if not ok:
+            res.add(Finding("D5", um.rel, "get_unit_factor" if node is not tab else "_UNIT_PREFIX", f"{s_!r}: {p_}",
+                            f"the prefix {s_!r} stands for 10^{SI_PREFIX.get(s_)} in SI, the table says 10^{p_}: coordinates drawn in this unit are off by a power of ten "
+                            "while the axes announce it", getattr(sym, "lineno", None)))
+    res.require(n >= 15, f"D5: only {n} prefix entries examined")
+    # the factor is 10**(-power): the scaling expression uses the looked-up power with a negative sign / reciprocal
+    scal = [b for b in ast.walk(fn) if isinstance(b, ast.BinOp) and isinstance(b.op, ast.Pow) and isinstance(b.left, ast.Constant) and b.left.value == 10]
+    res.require(scal, "anchor vanished: 10**power in get_unit_factor")
+
+
+def d6(repo, res):
+    """D6 an animation frame is drawn at the path index it is labelled with: in get_frames' loop over the (downsampled) path indices the
+    index handed to the drawing code (`style_path_frames`) and the index shown in the title are the same loop element - not the
+    enumeration counter, which only coincides with it when no downsampling takes place"""
+    m = repo.mod("magpylib._src.display.traces_generic")
+    fn = m.funcs.get("get_frames")
+    res.require(fn is not None, "anchor vanished: get_frames")
+    found = 0
+    for loop in ast.walk(fn):
+        if not (isinstance(loop, ast.For) and isinstance(loop.iter, ast.Call) and getattr(loop.iter.func, "id", "") == "enumerate"
+                and isinstance(loop.target, ast.Tuple) and len(loop.target.elts) == 2 and all(isinstance(e, ast.Name) for e in loop.target.elts)):
+            continue
+        cnt, elem = loop.target.elts[0].id, loop.target.elts[1].id
+        stores = [s_ for s_ in ast.walk(loop) if isinstance(s_, ast.Assign) and any(isinstance(t, ast.Subscript) and isinstance(t.slice, ast.Constant)
+                                                                                    and t.slice.value == "style_path_frames" for t in s_.targets)]
+        if not stores:
+            continue
+        found += 1
+        for s_ in stores:
+            used = {x.id for x in ast.walk(s_.value) if isinstance(x, ast.Name)}
+            ok = elem in used and cnt not in used
+            res.ob(f"D6:{norm(s_)}", ok, {"rule": "D6", "store": norm(s_), "loop_element": elem, "loop_counter": cnt})
+            if not ok:
+                res.add(Finding("D6", m.rel, "get_frames", s_, f"the frame is drawn at `{norm(s_.value)}`: the path index of the frame is the loop element `{elem}`; the counter "
+                                f"`{cnt}` differs from it as soon as the path is downsampled to the frame budget", s_.lineno))
+        labels = [j for j in ast.walk(loop) if isinstance(j, ast.JoinedStr) and "path index" in ast.unparse(j)]
+        for j in labels:
+            used = {x.id for x in ast.walk(j) if isinstance(x, ast.Name)}
+            ok = elem in used and cnt not in used
+            res.ob(f"D6:label:{norm(j)[:40]}", ok, {"rule": "D6", "label": norm(j)[:80]})
+            if not ok:
+                res.add(Finding("D6", m.rel, "get_frames", j, f"the frame label does not show the loop element `{elem}` (the path index being drawn)", j.lineno))
+    res.require(found >= 1, "anchor vanished: loop over the path indices storing style_path_frames in get_frames")
+
+
+def d7(repo, res):
+    """D7 the path line runs through the path positions in path order: in make_path nothing that reorders or de-duplicates rows
+    (unique/sort/set/flip/...) is applied to values derived from the object's position"""
+    m = repo.mod("magpylib._src.display.traces_generic")
+    fn = m.funcs.get("make_path")
+    res.require(fn is not None, "anchor vanished: make_path")
+    tainted = set()
+    reads = [x for x in ast.walk(fn) if isinstance(x, ast.Attribute) and x.attr in ("position", "_position")]
+    res.require(reads, "anchor vanished: make_path no longer reads the object's position")
+    changed = True
+    while changed:
+        changed = False
+        for s_ in ast.walk(fn):
+            if isinstance(s_, ast.Assign):
+                src = any((isinstance(x, ast.Attribute) and x.attr in ("position", "_position")) or (isinstance(x, ast.Name) and x.id in tainted) for x in ast.walk(s_.value))
+                if src:
+                    for t in s_.targets:
+                        for x in ast.walk(t):
+                            if isinstance(x, ast.Name) and x.id not in tainted:
+                                tainted.add(x.id); changed = True
+    bad = []
+    for c in ast.walk(fn):
+        if isinstance(c, ast.Call):
+            nm = getattr(c.func, "attr", getattr(c.func, "id", ""))
+            if nm in ORDER_DESTROYING and any((isinstance(x, ast.Attribute) and x.attr in ("position", "_position")) or (isinstance(x, ast.Name) and x.id in tainted)
+                                              for a in list(c.args) + [c.func] for x in ast.walk(a)):
+                bad.append(c)
+        if isinstance(c, ast.Subscript) and isinstance(c.slice, ast.Slice) and isinstance(c.slice.step, ast.UnaryOp) and \
+                any((isinstance(x, ast.Attribute) and x.attr in ("position", "_position")) or (isinstance(x, ast.Name) and x.id in tainted) for x in ast.walk(c.value)):
+            bad.append(c)
+    res.ob("D7:make_path keeps the path order", not bad, {"rule": "D7", "position_derived_names": sorted(tainted), "reordering_operations": [norm(b) for b in bad]})
+    for b in bad:
+        res.add(Finding("D7", m.rel, "make_path", b, "the path positions are reordered / de-duplicated before the path line is drawn: the line no longer passes through "
+                        "the object's path positions in path order", b.lineno))
 
 
 def d3(repo, res):
